@@ -28,6 +28,9 @@ CLAIMS = {
          "Pairs of groupings on the same particles must yield the same multiset of elementary interactions and bit-identical values.", "3/C08"),
  "C09": ("property-based testing of target/source trees against the definitional model (generating-function values, interaction multiset), OpenMP-TSM under mock-runtime schedules",
          "Independent source/target sets incl. degenerate shapes; every target must receive each source exactly once and nothing else; sources untouched; task executor bit-identical under generated schedules.", "3/C09"),
+ "C10": ("property-based testing of the periodic four-call sequence with a geometry-sensitive exact kernel against the closed-form image sum over the reported repetition interval",
+         "For generated periodic trees and extra levels -1..5 every particle must hold exactly the generating-function value of all images in the reported interval (each once, displaced by whole boxes), "
+         "for single and target/source trees, sequential and OpenMP (mock schedules).", "3/C10"),
  "C12": ("property-based testing over generated execute() histories (ordered flag partitions x working level) with per-call write-set and operator oracles",
          "Staged histories must only run the requested operators at working levels, write only their outputs, and end in the state of one full run and of the model.", "3/C12"),
  "C16": ("property-based testing: lookup results against a definitional Morton model, exhaustive index ranges on small levels",
